@@ -499,6 +499,12 @@ def judge_cfg_validate(a, impl):
             if v != "0":
                 return f"{pkg}: {k[:-5]} is still empty after validation"
             continue
+        if k == "MaxClockSkew":  # a skew of zero is a value; a negative one refuses the IDs the tracker has just issued (D30)
+            if int(v) < 0:
+                return f"{pkg}: {k}={v} after validation (negative)"
+            if k in a and int(a[k]) >= 0 and int(v) != int(a[k]):
+                return f"{pkg}: {k} was valid ({a[k]}) and was replaced by {v}"
+            continue
         if int(v) <= 0:
             return f"{pkg}: {k}={v} after validation (not positive)"
         if k in a and int(a[k]) > 0 and int(v) != int(a[k]):
